@@ -382,6 +382,54 @@ func spinOnce(vm *otto.Otto, src string, fn func()) string {
 	}
 }
 
+// implICopy: the interrupt channel and the back pointer of runtimes made by Copy().  A copy has a
+// handle of its own: it polls ITS channel (none until the embedder installs one), never the template's,
+// and a host function running on the copy is handed the copy.
+func implICopy(variant int) string {
+	finite := `var n = 0; for (var i = 0; i < 2000; i++) { n += i } n`
+	tmpl := otto.New()
+	tmpl.Set("whoami", func(call otto.FunctionCall) otto.Value {
+		call.Otto.Set("touchedBy", call.Argument(0))
+		return otto.UndefinedValue()
+	})
+	mk := func() *otto.Otto { return tmpl.Copy() }
+	switch variant {
+	case 0, 2:
+		cp := mk()
+		if variant == 2 {
+			cp = cp.Copy()
+		}
+		return "copy:" + spinOnce(cp, `for(;;){}`, func() { panic(halt{}) }) + ";" + restTok(cp) + ";" + followTok(cp)
+	case 1, 3:
+		// the template has a channel with a function waiting (or just a channel); a copy runs a finite script
+		tmpl.Interrupt = make(chan func(), 1)
+		calls := 0
+		if variant == 1 {
+			tmpl.Interrupt <- func() { calls++ }
+		}
+		cp := mk()
+		v, err := cp.Run(finite)
+		r := fmt.Sprint("copy:", v, ",", err, ",stolen=", calls)
+		if variant == 3 {
+			// the copy gets its own channel: halting the copy leaves the template alone
+			r += ";" + spinOnce(cp, `while(true){}`, func() { panic(halt{}) })
+			tmpl.Interrupt <- func() { calls++ }
+		}
+		v, err = tmpl.Run(finite)
+		return strings.ReplaceAll(r+fmt.Sprint(";template:", v, ",", err, ",calls=", calls), " ", "_") + ";" + restTok(cp) + ";" + followTok(tmpl)
+	case 4:
+		cp := mk()
+		cp.Run(`whoami("copy")`)
+		a, _ := cp.Run(`typeof touchedBy`)
+		b, _ := tmpl.Run(`typeof touchedBy`)
+		tmpl.Run(`whoami("template")`)
+		c, _ := cp.Run(`touchedBy`)
+		d, _ := tmpl.Run(`touchedBy`)
+		return fmt.Sprintf("copy:%v,template:%v;then:copy:%v,template:%v", a, b, c, d)
+	}
+	return "bad-op"
+}
+
 func implInterrupt(shape int) string {
 	if shape < 0 || shape >= len(spinShapes) {
 		return "bad-shape"
@@ -441,6 +489,9 @@ func implC18(line string) string {
 	case "interrupt":
 		fmt.Sscan(f[1], &a)
 		return implInterrupt(a)
+	case "icopy":
+		fmt.Sscan(f[1], &a)
+		return implICopy(a)
 	}
 	return "bad-op"
 }
@@ -481,6 +532,9 @@ func genC18(c *h.Ctx) {
 			w = "intry"
 		}
 		c.Add(fmt.Sprintf("interrupt %d %s", i, w), "interrupt")
+	}
+	for v := 0; v <= 4; v++ {
+		c.Add(fmt.Sprintf("icopy %d", v), "icopy")
 	}
 	maxL := c.N(12, 64)
 	for L := 0; L <= maxL; L++ {
